@@ -120,7 +120,13 @@ class Findings:
             e["examples"].append(example)
 
     def flush(self, out):
-        for (sig, op, cause), e in sorted(self.by.items()):
+        # one entry per kind of violation first (only the first few are printed), its other instantiations / backends after
+        first, order = set(), []
+        for key in sorted(self.by):
+            order.append((0 if key[0] not in first else 1, key))
+            first.add(key[0])
+        for _, (sig, op, cause) in sorted(order):
+            e = self.by[(sig, op, cause)]
             out.violation(sig=sig, what="%s [%d case(s); first: %s]" % (e["what"], e["count"], json.dumps(e["examples"][0])[:700]),
                           op=op, cause=cause, count=e["count"], examples=e["examples"], repro=e["repro"])
 
